@@ -780,6 +780,9 @@ func (env *SpecEnv) evalCall(x *SExpr) Val {
 		return mkStr(app("str_join", v.Terms[2], v.Terms[0], t0(1)))
 	case "repeat":
 		return mkStr(app("str_repeat", t0(0), t0(1)))
+	case "trimprefix":
+		x, p := t0(0), t0(1)
+		return mkStr(ite(app("str.prefixof", p, x), app("str.substr", x, app("str.len", p), app("-", app("str.len", x), app("str.len", p))), x))
 	case "chancap":
 		return mkInt(app("chan_cap", t0(0)))
 	case "helptext":
